@@ -210,6 +210,20 @@ void World::add_event(int rank, int kind, int a, int b, int c, int d) {
                      (uint64_t)(uint32_t)c, (uint64_t)(uint32_t)d};
     for (int i = 0; i < 6; i++) { h ^= w[i]; h *= 1099511628211ULL; h ^= h >> 29; }
     hash_ = h;
+    // interleaving signature: the order of all events except unsuccessful polls and stalls, without step numbers
+    // (two executions that differ only in how often somebody polled in vain are the same interleaving)
+    if (kind != EV_TEST_FAIL && kind != EV_STALL) {
+        uint64_t g = ohash_;
+        for (int i = 1; i < 6; i++) { g ^= w[i]; g *= 1099511628211ULL; g ^= g >> 31; }
+        ohash_ = g;
+    }
+    // point-to-point protocol signature: only sends, deliveries, receive postings, matches, completions, cancels and harness notes
+    // (job executions), i.e. the dispatcher protocol without the interleaving of collective arrivals
+    if (kind == EV_SEND || kind == EV_DELIVER || kind == EV_POSTRECV || kind == EV_MATCH || kind == EV_TEST_OK || kind == EV_CANCEL || kind == EV_NOTE || kind == EV_WAIT) {
+        uint64_t g = phash_;
+        for (int i = 1; i < 6; i++) { g ^= w[i]; g *= 1099511628211ULL; g ^= g >> 31; }
+        phash_ = g;
+    }
 }
 
 void World::note(int a, int b, int c, int d) { add_event(g_rank, EV_NOTE, a, b, c, d); }
@@ -552,6 +566,8 @@ Result World::run(const std::function<void(int)>& fn) {
     res.verdict = verdict_set_ ? verdict_ : "ok";
     res.detail = detail_;
     res.hash = hash_;
+    res.order_hash = ohash_;
+    res.p2p_hash = phash_;
     for (int r = 0; r < P; r++) now_ = std::max(now_, tasks_[r]->vt);
     st_.vtime = now_;
     st_.contexts = (long)ctxs_.size();
@@ -623,7 +639,6 @@ bool World::try_match_posted(Msg& m) {
 }
 
 void World::arrive_at(Msg&& m) {
-    st_.deliveries++;
     if (try_match_posted(m)) return;
     int w = ctxs_[m.ctx]->members[m.dst];
     st_.unexpected++;
@@ -638,6 +653,7 @@ void World::deliver(const std::tuple<int,int,int>& key) {
     q.pop_front();
     // was some message that was sent earlier (globally) still in flight? => cross-source reordering exercised
     for (auto& kv : chan_) if (!kv.second.empty() && kv.second.front().gseq < m.gseq) { st_.delivered_out_of_global_order++; break; }
+    st_.deliveries++;
     if (o_.policy != POL_DES) now_ += 0.5;
     add_event(-1, EV_DELIVER, m.ctx, m.src, m.dst, m.tag);
     arrive_at(std::move(m));
